@@ -183,7 +183,15 @@ export function matchTemplate(parts, s) {
 
 // ---- membership -----------------------------------------------------------------------------------
 // env: {prog, depth budget}
+// number of sub-evaluations that answered DONTCARE since the last reset (lets a caller ask "IN, and
+// no debatable branch was involved anywhere")
+export const dcSeen = { count: 0 };
 export function member(prog, t, v, fuel = 64) {
+  const r = member0(prog, t, v, fuel);
+  if (r === DC) dcSeen.count++;
+  return r;
+}
+function member0(prog, t, v, fuel) {
   if (fuel <= 0) return DC;
   const M = (tt, vv) => member(prog, tt, vv, fuel - 1);
   switch (t.k) {
